@@ -182,13 +182,32 @@ func c12Shapes() []*spec.Spec {
 			&spec.Conn{From: "PSB.out", To: "PC.u", Param: true}, &spec.Conn{From: "PSC.out", To: "PC.v", Param: true})
 		out = append(out, s)
 	}
-	// two joined in-ports, non-matching %suffix modifiers in three processes at once, each fed by its own StreamToSubStream
+	// two joined in-ports, non-matching %suffix modifiers in three processes at once, IPSelectorSync over triples of which several members are rejected, each fed by its own StreamToSubStream
 	{
 		s := mk("two_joins", 4)
 		s.Procs = append(s.Procs, cmd("UA", in, o1, 1), cmd("UB", in, o1, 1), &spec.Proc{Name: "SSA", Kind: spec.KSubStream}, &spec.Proc{Name: "SSB", Kind: spec.KSubStream},
 			&spec.Proc{Name: "JN2", Kind: spec.KCmd, Cmd: "echo A:{i:a|join:,}:A B:{i:b|join: }:B > {o:out}", Outs: []*spec.Out{{Port: "out", Pattern: "joined2.out"}}})
 		s.Conns = append(s.Conns, &spec.Conn{From: "src.out", To: "UA.in"}, &spec.Conn{From: "src.out", To: "UB.in"}, &spec.Conn{From: "UA.out", To: "SSA.in"}, &spec.Conn{From: "UB.out", To: "SSB.in"},
 			&spec.Conn{From: "SSA.substream", To: "JN2.a"}, &spec.Conn{From: "SSB.substream", To: "JN2.b"})
+		out = append(out, s)
+	}
+	// IPSelectorSync over aligned pairs of which both members, one member or no member are rejected
+	{
+		s := mk("selectorpairs", 4)
+		s.Sources["q0.txt"] = "q0\n"
+		s.Sources["q1.txt"] = "q1\n"
+		s.Sources["q11.txt"] = "q11\n"
+		s.Sources["p1.txt"] = "p1\n"
+		s.Sources["p2.txt"] = "p2\n"
+		// (each combinator port has an upstream of its own: ports that share one must not get more items than the buffer holds)
+		s.Procs = append(s.Procs, &spec.Proc{Name: "src2", Kind: spec.KFileSource, Files: []string{"q0.txt", "q1.txt", "q11.txt"}},
+			&spec.Proc{Name: "src3", Kind: spec.KFileSource, Files: []string{"p1.txt", "p2.txt"}},
+			&spec.Proc{Name: "FC", Kind: spec.KFileComb, Ports: []string{"a", "b", "c"}},
+			&spec.Proc{Name: "SEL", Kind: spec.KSelector, Ports: []string{"a", "b", "c"}, Pred: "notcontains:1"},
+			cmd("J", []spec.PortDecl{{Name: "a"}, {Name: "b"}, {Name: "c"}}, []spec.PortDecl{{Name: "out"}}, 1))
+		s.Conns = append(s.Conns, &spec.Conn{From: "src.out", To: "FC.a"}, &spec.Conn{From: "src2.out", To: "FC.b"}, &spec.Conn{From: "src3.out", To: "FC.c"},
+			&spec.Conn{From: "FC.a", To: "SEL.a"}, &spec.Conn{From: "FC.b", To: "SEL.b"}, &spec.Conn{From: "FC.c", To: "SEL.c"},
+			&spec.Conn{From: "SEL.a", To: "J.a"}, &spec.Conn{From: "SEL.b", To: "J.b"}, &spec.Conn{From: "SEL.c", To: "J.c"})
 		out = append(out, s)
 	}
 	// path modifiers that do not apply (a %suffix the file name does not end with - the library warns about it), in
@@ -231,7 +250,7 @@ func c12Shapes() []*spec.Spec {
 func c12(args []string) {
 	c := chk.New("C12", "exploration", args)
 	c.Build(true)
-	c.Rule("the subject built with the Go race detector (-race, GORACE=halt_on_error=0 log_path=...) runs generated graphs biased to shared state (fan-out of one out-port to several consumers, MapToTags beside sibling consumers, multi-output tasks feeding different consumers, fan-in, multi-core tasks, parameter feeders and combinators, Go functions) and directed shapes (tagging + reading siblings + GroupByTag concatenation, simultaneous closing of 6 upstreams, RunTo with literal parameter feeders, components with internal goroutines, a streaming pair, 16 streamed items from a producer with additional regular outputs, one out-port fanned out to Go functions that Read() the same items, the sink draining files and parameters at once, two joined in-ports, non-matching %suffix modifiers in three processes at once, a second workflow with a custom log file created while a first one is running), each under several yield-point seeds and GOMAXPROCS values, every second directed shape also re-run in place after it completed (all tasks skipped, IPs loaded from disk), every second run with passive hooks, every fourth also with the library's logging reduced to errors (an active hook takes the monitor mutex, which is a synchronisation the race detector sees and which would order accesses the plain library leaves unordered); oracle: every 'WARNING: DATA RACE' block with a scipipe frame is a violation, de-duplicated by the pair of innermost scipipe frames; blocks without any scipipe frame are harness bugs (check reported as broken). distinct_nontrivial = distinct interleaving signatures observed under the race detector")
+	c.Rule("the subject built with the Go race detector (-race, GORACE=halt_on_error=0 log_path=...) runs generated graphs biased to shared state (fan-out of one out-port to several consumers, MapToTags beside sibling consumers, multi-output tasks feeding different consumers, fan-in, multi-core tasks, parameter feeders and combinators, Go functions) and directed shapes (tagging + reading siblings + GroupByTag concatenation, simultaneous closing of 6 upstreams, RunTo with literal parameter feeders, components with internal goroutines, a streaming pair, 16 streamed items from a producer with additional regular outputs, one out-port fanned out to Go functions that Read() the same items, the sink draining files and parameters at once, two joined in-ports, non-matching %suffix modifiers in three processes at once, IPSelectorSync over triples of which several members are rejected, a second workflow with a custom log file created while a first one is running), each under several yield-point seeds and GOMAXPROCS values, every second directed shape also re-run in place after it completed (all tasks skipped, IPs loaded from disk), every second run with passive hooks, every fourth also with the library's logging reduced to errors (an active hook takes the monitor mutex, which is a synchronisation the race detector sees and which would order accesses the plain library leaves unordered); oracle: every 'WARNING: DATA RACE' block with a scipipe frame is a violation, de-duplicated by the pair of innermost scipipe frames; blocks without any scipipe frame are harness bugs (check reported as broken). distinct_nontrivial = distinct interleaving signatures observed under the race detector")
 	c.Assume("the race detector reports happens-before violations on executed paths only")
 	rng := c.Rand("c12")
 	type job struct {
@@ -301,8 +320,10 @@ func c12(args []string) {
 			c.Violation(sig, "data race between "+r.Frames[0]+" and "+r.Frames[1]+" ("+j.tag+")\n"+clip(r.Text, 1800),
 				map[string]interface{}{"spec": j.s, "cfg": j.cfg, "workload": j.tag, "report": r.Text})
 		}
-		if res.Hang != "" && !strings.HasPrefix(res.Hang, "deadlock") {
-			c.Inconclusive(res.Hang)
+		if res.Hang != "" {
+			// a run that does not terminate is C05's / C07's matter; here it only means that this run's schedule space
+			// was not explored (made visible as inconclusive)
+			c.Inconclusive(j.tag + ": " + res.Hang)
 			return
 		}
 		if len(res.Events) > 0 {
